@@ -554,6 +554,14 @@ fn resolve_err_fields(op: &str, e: &resolve::Error, ptr: &str, out: &mut Out) ->
     if no_panic(|| format!("{e} {e:?}")).is_none() {
         out.fail("C15", format!("formatting the resolve error for {ptr:?} panicked"));
     }
+    // the variant predicates and the error-source chain agree with the variant
+    let preds = (e.is_failed_to_parse_index(), e.is_out_of_bounds(), e.is_not_found(), e.is_unreachable());
+    out.check(preds == (kind == "fpi", kind == "oob", kind == "nf", kind == "unr"), "C05,C15", || format!("is_* predicates {preds:?} disagree with the variant {kind} for {ptr:?}"));
+    #[cfg(feature = "full")]
+    {
+        let has_source = std::error::Error::source(e).is_some();
+        out.check(has_source == (kind == "fpi" || kind == "oob"), "C15", || format!("Error::source() presence {has_source} disagrees with the variant {kind} for {ptr:?}"));
+    }
     format!("err {kind} {} {}{payload} {label}", e.position(), e.offset())
 }
 
@@ -571,6 +579,13 @@ fn assign_err_fields(e: &assign::Error, ptr: &str, out: &mut Out) -> String {
     check_location("assign", ptr, e.position(), e.offset(), &label, out);
     if no_panic(|| format!("{e} {e:?}")).is_none() {
         out.fail("C15", format!("formatting the assign error for {ptr:?} panicked"));
+    }
+    let preds = (e.is_failed_to_parse_index(), e.is_out_of_bounds());
+    out.check(preds == (kind == "fpi", kind == "oob"), "C06,C15", || format!("is_* predicates {preds:?} disagree with the variant {kind} for {ptr:?}"));
+    #[cfg(feature = "full")]
+    {
+        let has_source = std::error::Error::source(e).is_some();
+        out.check(has_source, "C15", || format!("assign::Error::source() is None for {ptr:?}"));
     }
     format!("err {kind} {} {}{payload} {label}", e.position(), e.offset())
 }
@@ -1144,6 +1159,15 @@ pub fn gen(tier: &str, rng: &mut Rng, emit: &mut dyn FnMut(String)) {
             Doc::Arr(vec![arr(vec![1, 2, 3]), obj(vec![("k", arr(vec![7, 8, 9]))]), Doc::Str("s".into())]),
             obj(vec![("list", Doc::Arr(vec![obj(vec![("id", Doc::Int(1))]), obj(vec![("id", Doc::Int(2))]), obj(vec![("id", Doc::Int(3))])]))]),
             obj(vec![("0", arr(vec![1])), ("-", arr(vec![2])), ("00", Doc::Int(3)), ("01", obj(vec![])), ("+1", Doc::Int(4))]),
+            // beyond the small scope: two-digit and three-digit indices, a deep spine, keys that are prefixes of each other,
+            // keys with every kind of awkward byte
+            arr((0..12).collect()),
+            obj(vec![("rows", arr((0..101).collect()))]),
+            (0..33).fold(Doc::Int(7), |d, k| if k % 2 == 0 { Doc::Obj([(format!("k{}", k % 5), d)].into_iter().collect()) } else { Doc::Arr(vec![Doc::Bool(true), d]) }),
+            obj(vec![("a", Doc::Int(1)), ("ab", Doc::Int(2)), ("abc", obj(vec![("a", Doc::Int(3)), ("ab", Doc::Int(4))])), ("a/", Doc::Int(5)), ("a~", Doc::Int(6))]),
+            obj(vec![(".", Doc::Int(1)), ("..", Doc::Int(2)), (" ", Doc::Int(3)), ("\u{0}", Doc::Int(4)), ("\"", Doc::Int(5)), ("\\", Doc::Int(6)), ("\u{7f}", Doc::Int(7)),
+                     ("€", Doc::Int(8)), ("𝄞", arr(vec![1, 2])), ("%7E", Doc::Int(9)), ("#", Doc::Int(10))]),
+            obj(vec![(&"k".repeat(300), arr(vec![1, 2])), (&"k".repeat(299), Doc::Int(1))]),
         ];
         for d in docs {
             let ds = doc_str(&d);
